@@ -10,6 +10,9 @@ LEVEL = "model_checking"
 ASSUMPTIONS = [
     "naming policy fixed per run before the root is created (docs exclude switching mid-way)",
     "names/identifiers drawn from {a, A, b} / {a, A, b, 1x}; scopes explored one at a time",
+    "the policy tag .NS of an orphan root may be *set* (the manager checks compliance and re-indexes the tree); deleting "
+    "the tag is not among the documented edits (it leaves the tree without any rule and without name index) and is "
+    "not in the alphabet",
     "a refusal by AssertionError/KeyError/TypeError is a structural refusal and is C14's subject; "
     "only ValueError counts as a refusal by the naming rules",
 ]
@@ -82,7 +85,7 @@ class Model:
         (recorded when the root was created), otherwise the scenario's."""
         if not self.mixed or obj is None:
             return self
-        return Model(root_of(obj).get(".NS", "DEFAULT"))
+        return Model(root_of(obj).get(".NS", "NONE"))   # NONE: the tag was deleted, no rule is in force
 
     def checked_keys(self):
         return KEYS if self.policy == "EDIF" else (".NAME",)
@@ -147,8 +150,18 @@ class Model:
             if m.illegal(key, v):
                 return "refuse"
             kind = w.kind[w.idx(el)]
-            parent = getattr(el, PARENT_ATTR[kind])
+            parent = getattr(el, PARENT_ATTR[kind]) if kind in PARENT_ATTR else None
             return "refuse" if m.clash(kind, parent, {key: v}, exclude=el) else "accept"
+        if name == "element.set_ns":
+            el, v = a[0], a[1]
+            if el.get(".NS") == v:
+                return "accept"
+            kind = w.kind[w.idx(el)]
+            if kind in PARENT_ATTR and getattr(el, PARENT_ATTR[kind]) is not None:
+                return "refuse"      # only the root of a tree may change policy
+            if v not in ("EDIF", "DEFAULT"):
+                return "refuse"
+            return "accept" if Model(v).subtree_compliant(el) else "refuse"
         if name in ("element.del_name",):
             return "accept"
         if name in ("element.delitem", "element.pop"):
